@@ -50,7 +50,8 @@ def DIB.wf : DIB → Bool
 
 def SRP.wf (s : SRP) : Bool :=
   decide (s.ty ∈ SRPType.codes) && decide (s.ty < 8) && octets s.data &&
-    decide (s.payloadSize ≤ 255) && decide (SRP.init s.ty s.mandatory s.data = .ok s)
+    decide (s.payloadSize ≤ 255) && decide (s.payloadSize = Const.srpHeaderSize + s.data.length) &&
+    decide (SRP.init s.ty s.mandatory s.data = .ok s)
 
 def Body.fieldsWf : Body → Bool
   | .searchRequest ep => ep.wf
